@@ -4,6 +4,7 @@ import (
 	"context"
 	"encoding/json"
 	"fmt"
+	"github.com/smallnest/rpcx/share"
 	"net"
 	"runtime"
 	"strconv"
@@ -512,6 +513,54 @@ func srvClientCheck(o *common.Out, id, abstract string, rig *srvRig, reqs []sreq
 		}
 		for len(rig.h.finished) > 0 {
 			<-rig.h.finished
+		}
+	}
+	if len(reqs)%2 == 1 {
+		// a request that carries a server-side time limit (the __ServerTimeout metadata); its handler is still running
+		// when the limit passes, and then fails - or panics - with its own text: that text is what the caller gets
+		for k, style := range [][2]string{{"Arith", "Mul"}, {"Fn", "mul"}} {
+			for m, mode := range []string{"err", "panic"} {
+				idn := 8900 + 2*k + m
+				rig.h.mu.Lock()
+				rig.h.gated = true
+				rig.h.mu.Unlock()
+				ctx := context.WithValue(context.Background(), share.ReqMetaDataKey, map[string]string{share.ServerTimeout: "15"})
+				ctx, cancel := context.WithTimeout(ctx, 4*time.Second)
+				done := make(chan error, 1)
+				text := fmt.Sprintf("late failure %d", idn)
+				go func() {
+					var rp SReply
+					done <- cl.Call(ctx, style[0], style[1], &SArgs{Id: idn, A: 1, B: 1, Mode: mode, Text: text}, &rp)
+				}()
+				select {
+				case <-rig.h.entered:
+				case <-time.After(3 * time.Second):
+				}
+				time.Sleep(40 * time.Millisecond) // the server-side limit has passed
+				rig.h.release(idn)
+				select {
+				case <-rig.h.finished:
+				case <-time.After(3 * time.Second):
+				}
+				select {
+				case err := <-done:
+					if err == nil || !strings.Contains(err.Error(), text) {
+						o.Fail(id, "error-text-changed", fmt.Sprintf("a handler (%s.%s) that outlived the request's __ServerTimeout and then failed (%s) with %q: the caller got %v", style[0], style[1], mode, text, err), abstract)
+					}
+				case <-time.After(3 * time.Second):
+					o.Fail(id, "service-error-lost", "the call with a server-side time limit never returned", abstract)
+				}
+				cancel()
+				rig.h.mu.Lock()
+				rig.h.gated = false
+				rig.h.mu.Unlock()
+				for len(rig.h.entered) > 0 {
+					<-rig.h.entered
+				}
+				for len(rig.h.finished) > 0 {
+					<-rig.h.finished
+				}
+			}
 		}
 	}
 	for i, q := range reqs {
